@@ -74,6 +74,7 @@ pub const PALETTE: &[Pal] = &[
     pal("[u8; 5]", true, false, true, 0),                // 28
     pal("[u8; 7]", true, false, true, 0),                // 29
     pal("Option<u32>", true, false, true, 0),            // 30
+    pal("[u64; 40]", true, false, false, 0),             // 31 (320 bytes; serde has no impl for arrays above 32)
 ];
 
 type Builder = NativeRecordDefinitionBuilder<HostTypeResolver>;
@@ -123,6 +124,7 @@ fn add_pal(b: &mut Builder, p: usize, uninit: bool, name: &str) -> Result<DatumI
             28 => add_u::<[u8; 5]>(b, name),
             29 => add_u::<[u8; 7]>(b, name),
             30 => add_u::<Option<u32>>(b, name),
+            31 => add_u::<[u64; 40]>(b, name),
             _ => panic!("palette type {} is not Copy", p),
         }
     } else {
@@ -157,6 +159,7 @@ fn add_pal(b: &mut Builder, p: usize, uninit: bool, name: &str) -> Result<DatumI
             28 => add_t::<[u8; 5]>(b, name),
             29 => add_t::<[u8; 7]>(b, name),
             30 => add_t::<Option<u32>>(b, name),
+            31 => add_t::<[u64; 40]>(b, name),
             _ => panic!("unknown palette type {}", p),
         }
     }
@@ -270,6 +273,47 @@ pub fn directed_specs() -> Vec<GSpec> {
     reqs.push(u(0, "n1"));
     reqs.push(cl(Simple));
     push("many-fields", 3, reqs);
+    // a wide record: more than 32 fields, offsets beyond 4096, names that do not sort like their
+    // declaration order, names that are prefixes of one another, a leading underscore, a long name
+    let mut reqs = Vec::new();
+    let wide_types = [31, 19, 0, 31, 15, 2, 31, 22, 31, 5, 31, 3, 31, 21, 31, 1, 31, 12, 31, 16, 31, 9, 31, 20, 31, 26, 31, 11, 31, 27, 31, 13, 19, 4, 2, 29, 0, 10, 17, 8];
+    for (i, p) in wide_types.iter().enumerate() {
+        let name = match i % 5 {
+            0 => format!("z{:03}", 900 - i),
+            1 => format!("p{}", "q".repeat(i / 5 + 1)),
+            2 => format!("_under_{}", i),
+            3 => format!("a_rather_long_field_name_that_goes_on_and_on_and_on_for_quite_a_while_{}", i),
+            _ => format!("f{}", i),
+        };
+        reqs.push(if PALETTE[*p].copy && i % 3 == 0 { u(*p, &name) } else { a(*p, &name) });
+    }
+    reqs.push(cl(Simple));
+    for k in [0, 3, 6, 21, 33, 39] {
+        reqs.push(rm(k));
+    }
+    reqs.push(a(19, "late_tracked"));
+    reqs.push(u(31, "late_big"));
+    reqs.push(a(15, "a"));
+    reqs.push(a(22, "ab"));
+    reqs.push(cl(Simple));
+    reqs.push(rm(1));
+    reqs.push(rm(40));
+    reqs.push(a(21, "abc"));
+    reqs.push(cl(Basic));
+    push("wide-record", 1, reqs);
+    // many variants: two-digit variant numbers
+    let mut reqs = Vec::new();
+    let mut issued = 0usize;
+    for v in 0..14 {
+        let p = [19, 2, 15, 5, 22, 3, 21, 1, 16, 12, 20, 0, 17, 26][v];
+        reqs.push(if PALETTE[p].copy && v % 2 == 1 { u(p, &format!("v{}", v)) } else { a(p, &format!("v{}", v)) });
+        issued += 1;
+        if v >= 2 && v % 2 == 0 {
+            reqs.push(rm(issued - 3));
+        }
+        reqs.push(cl(if v % 4 == 3 { Basic } else { Simple }));
+    }
+    push("many-variants", 3, reqs);
     // orphans with a type that cannot be named, every strategy
     push("orphans", 3, vec![orphan("ghost0"), a(19, "t"), cl(Append), orphan("ghost1"), a(2, "n"), cl(AppendRev), rm(1), orphan("ghost2"), cl(Basic), a(15, "s"), cl(Simple)]);
     // default fragments only, MaybeUninit that stays unwritten across conversions
@@ -290,6 +334,20 @@ pub fn random_spec(rng: &mut Rng, index: usize) -> GSpec {
     let mut issued = 0usize;
     let mut next_name = 0usize;
     let mut free_names: Vec<String> = Vec::new();
+    let name_style = rng.below(7);
+    let fresh_name = |n: usize| -> String {
+        match name_style {
+            // names whose sort order is the reverse of the declaration order
+            3 => format!("z{:03}", 900 - n),
+            // a leading underscore and a long name
+            4 => format!("_long_field_name_number_{}_with_some_more_words_after_it", n),
+            // names that are prefixes of one another
+            5 => format!("p{}", "q".repeat(n + 1)),
+            // mixed case-free shapes with digits in the middle
+            6 => format!("x{}y{}", n % 3, n),
+            _ => format!("f{}", n),
+        }
+    };
     // type pools
     let droppable: Vec<usize> = vec![15, 16, 17, 18, 19, 19, 19, 20, 21, 22, 25];
     let plain: Vec<usize> = vec![0, 1, 2, 3, 4, 5, 6, 7, 8, 9, 10, 11, 12, 13, 23, 24, 26, 27, 28, 29, 30];
@@ -324,7 +382,7 @@ pub fn random_spec(rng: &mut Rng, index: usize) -> GSpec {
                 free_names.remove(i)
             } else {
                 next_name += 1;
-                format!("f{}", next_name - 1)
+                fresh_name(next_name - 1)
             };
             reqs.push(GReq::Add { pal: p, uninit, name: name.clone() });
             live.push((issued, name));
